@@ -351,6 +351,7 @@ trie_node_release(struct trie *t, struct trie_node *node)
 	int empty = QB_FALSE;
 
 	if (node->key == NULL &&
+	    node->refcount == 0 &&
 	    node->parent != NULL &&
 	    qb_list_empty(node->notifier_head)) {
 		struct trie_node *p = node->parent;
